@@ -54,6 +54,8 @@ pub enum Consume {
     Mixed(u8, u8),
     DropNow,
     Forget,
+    /// take k items from the front, then mem::forget the iterator (leak amplification path)
+    TakeForget(u8),
 }
 
 #[derive(Clone, Copy, Debug, PartialEq, Eq, Serialize, Deserialize)]
@@ -142,6 +144,9 @@ pub enum VOp {
     ReserveExact(Pos),
     TryReserve(Pos),
     TryReserveExact(Pos),
+    /// try_reserve(_exact) while the arena's allocation limit leaves `headroom` bytes: the call may
+    /// fail; a failed call must leave length, contents and capacity exactly as they were
+    TryReserveLimited { n: usize, exact: bool, headroom: usize },
     ShrinkToFit,
     CloneCmp,
     IntoIter(Consume),
